@@ -122,6 +122,7 @@ type Ctx struct {
 	False  *Term
 	UFs    map[string]*UFDecl
 	UFList []*UFDecl
+	NoLift bool // per-context switch: see liftPair
 }
 
 type UFDecl struct {
@@ -964,7 +965,7 @@ func (c *Ctx) lift(t *Term, depth int) (*Term, bool) {
 }
 
 func (c *Ctx) liftPair(a, b *Term) (*Term, *Term, bool) {
-	if NoLift || a.Sort.K != KInt {
+	if NoLift || c.NoLift || a.Sort.K != KInt {
 		return nil, nil, false
 	}
 	// only worthwhile when at least one side is not a constant and both lift
